@@ -481,21 +481,28 @@ func (g *gen) rewritePkgRefs(info *types.Info, node ast.Node) ast.Node {
 		}
 		return false
 	}
-	var scopeStack []*types.Scope
+	// A new name must not be any identifier that occurs in the node either,
+	// or it could capture (or be captured by) another local symbol. (The
+	// node is a copy, so its scopes cannot be looked up in info.Scopes.)
+	used := make(map[string]bool)
+	ast.Inspect(node, func(n ast.Node) bool {
+		if id, ok := n.(*ast.Ident); ok {
+			used[id.Name] = true
+		}
+		return true
+	})
+	collides := func(n string) bool {
+		return g.nameInFileScope(n) || inNewNames(n) || used[n]
+	}
 	pkgScope := g.pkg.Types.Scope()
 	node = astutil.Apply(node, func(c *astutil.Cursor) bool {
-		if scope := info.Scopes[c.Node()]; scope != nil {
-			scopeStack = append(scopeStack, scope)
-		}
 		if ts, ok := c.Node().(*ast.TypeSwitchStmt); ok {
 			// The symbolic variable of "switch x := y.(type)" has no object of
 			// its own: each clause declares an implicit one at x's position.
 			// Pick one new name for the identifier and all of those objects.
 			if assign, ok := ts.Assign.(*ast.AssignStmt); ok && len(assign.Lhs) == 1 {
 				if id, ok := assign.Lhs[0].(*ast.Ident); ok && (g.nameInFileScope(id.Name) || inNewNames(id.Name)) {
-					newName := disambiguate(id.Name, func(n string) bool {
-						return g.nameInFileScope(n) || inNewNames(n)
-					})
+					newName := disambiguate(id.Name, collides)
 					for _, obj := range info.Implicits {
 						if obj.Pos() == id.Pos() {
 							newNames[obj] = newName
@@ -531,30 +538,11 @@ func (g *gen) rewritePkgRefs(info *types.Info, node ast.Node) ast.Node {
 		if pos := obj.Pos(); pos < start || end <= pos || !(g.nameInFileScope(objName) || inNewNames(objName)) {
 			return true
 		}
-		newName := disambiguate(objName, func(n string) bool {
-			if g.nameInFileScope(n) || inNewNames(n) {
-				return true
-			}
-			if len(scopeStack) > 0 {
-				// Avoid picking a name that conflicts with other names in the
-				// current scope.
-				_, obj := scopeStack[len(scopeStack)-1].LookupParent(n, token.NoPos)
-				if obj != nil {
-					return true
-				}
-			}
-			return false
-		})
+		newName := disambiguate(objName, collides)
 		newNames[obj] = newName
 		c.Replace(ast.NewIdent(newName))
 		return false
-	}, func(c *astutil.Cursor) bool {
-		if info.Scopes[c.Node()] != nil {
-			// Should be top of stack; pop it.
-			scopeStack = scopeStack[:len(scopeStack)-1]
-		}
-		return true
-	})
+	}, nil)
 	return node
 }
 
